@@ -13,8 +13,11 @@ use crate::selector::{Selector, SelectorList};
 pub(crate) struct ExtendedSelector(Rc<RefCell<SelectorList>>);
 
 impl PartialEq for ExtendedSelector {
+    // Equality must agree with `Hash`, which uses the address: two style rules
+    // with equal selector lists are still two distinct cells, and both have to
+    // stay in a `SelectorHashSet`.
     fn eq(&self, other: &Self) -> bool {
-        self.0 == other.0
+        Rc::ptr_eq(&self.0, &other.0)
     }
 }
 
